@@ -120,6 +120,9 @@ func (s *State) ParseConfig(data []byte, fName string) (
 	if err != nil {
 		return nil, err
 	}
+	if err := checkNull(config); err != nil {
+		return nil, err
+	}
 	if path.Ext(fName) == ".raw" {
 		if err := checkRaw(config); err != nil {
 			return nil, err
@@ -127,6 +130,41 @@ func (s *State) ParseConfig(data []byte, fName string) (
 	}
 	err = checkConfigValidity(config)
 	return config, err
+}
+
+// JSON value 'null' is decoded to nil pointer as list element.
+func checkNull(c *NsxConfig) error {
+	for _, p := range c.Policies {
+		if p == nil {
+			return fmt.Errorf("Unexpected null in list of policies")
+		}
+		for _, r := range p.Rules {
+			if r == nil {
+				return fmt.Errorf("Unexpected null in rules of policy %s", p.Id)
+			}
+		}
+	}
+	for _, g := range c.Groups {
+		if g == nil {
+			return fmt.Errorf("Unexpected null in list of groups")
+		}
+		for _, e := range g.Expression {
+			if e == nil {
+				return fmt.Errorf("Unexpected null in expression of group %s", g.Id)
+			}
+		}
+	}
+	for _, s := range c.Services {
+		if s == nil {
+			return fmt.Errorf("Unexpected null in list of services")
+		}
+		for _, e := range s.ServiceEntries {
+			if e == nil {
+				return fmt.Errorf("Unexpected null in service_entries of service %s", s.Id)
+			}
+		}
+	}
+	return nil
 }
 
 func checkRaw(c *NsxConfig) error {
